@@ -313,43 +313,75 @@ def readBodies (alloc : Nat → Nat) : Nat → List Nat → Bytes → Except Err
         let (bs, s') ← readBodies alloc (i + 1) rest (s.drop size)
         pure ({ data := s.take size, cap := nc, base := alloc i, dirty := true } :: bs, s')
 
+/-- which optional validations the loader performs (read from arena.c by the translator, so that the
+    model follows the code when the hardening proposed in notes/C17-loader-validation.diff is applied) -/
+structure LoaderCfg where
+  checksOffsets : Bool     -- buffer-table offsets must be the running sum of the sizes
+  relocGuarded : Bool      -- `used < sizeof(void*)` tested before `offset > used - sizeof(void*)`
+  validatesRefs : Bool     -- the reference found in a slot must be null or point into used bytes
+  refStrict : Bool         -- … `offset >= used` (true) or `offset > used` (false) is refused
+  rejectsPartial : Bool    -- a trailing partial relocation entry is an error
+deriving Repr, DecidableEq
+
+/-- the loader of the source tree the model was generated from -/
+def loaderCfg : LoaderCfg :=
+  { checksOffsets := loaderChecksOffsets, relocGuarded := relocTestGuarded, validatesRefs := loaderValidatesRefs,
+    refStrict := loaderRefStrict, rejectsPartial := loaderRejectsPartial }
+
+/-- cross-check of the buffer table: entry i's offset is `expected`, the next one's is `expected + size_i` -/
+def offsetsOk (s : Bytes) : Nat → Nat → List Nat → Bool
+  | _, _, [] => true
+  | i, expected, size :: rest =>
+    rdLE tblOffsetSize s (tableEntrySize * i + tblOffsetOff) == expected % 2 ^ 64 && offsetsOk s (i + 1) (expected + size) rest
+
 /-- the loader's test on a relocation entry, as written:
-    `buffer_id >= num_buffers || offset > used - sizeof(void*) || data == NULL`  (size_t arithmetic) -/
-def relocRejected (a : Arena) (r : Ref) : Bool :=
+    `buffer_id >= num_buffers || offset > used - sizeof(void*) || data == NULL`  (size_t arithmetic;
+    `used - 8` wraps for used < 8 unless the guarded form is used) -/
+def relocRejected (cfg : LoaderCfg) (a : Arena) (r : Ref) : Bool :=
   let b := a.bufAt r.buf
   let used := b.data.length
   decide (r.buf ≥ a.bufs.length)
-    || (if relocTestGuarded then decide (used < 8) || decide (r.off > used - 8)
+    || (if cfg.relocGuarded then decide (used < 8) || decide (r.off > used - 8)
         else decide (r.off > (used + 2 ^ 64 - 8) % 2 ^ 64))
     || decide (b.base = 0)
 
+/-- the (optional) validation of the reference stored in a slot -/
+def refRefused (cfg : LoaderCfg) (a : Arena) : Option Ref → Bool
+  | none => false
+  | some t => decide (t.buf ≥ a.bufs.length) ||
+      (if cfg.refStrict then decide (t.off ≥ (a.bufAt t.buf).data.length) else decide (t.off > (a.bufAt t.buf).data.length))
+
 /-- the relocation loop: 8-byte entries until the stream is exhausted; a trailing partial entry
-    makes `yr_stream_read(…, 8, 1)` return 0 and is silently dropped -/
-def applyRelocs (a : Arena) : Bytes → Except Err Arena
+    makes `yr_stream_read(…, 8, 1)` return 0 and is silently dropped (or refused, see `LoaderCfg`) -/
+def applyRelocs (cfg : LoaderCfg) (a : Arena) : Bytes → Except Err Arena
   | b0 :: b1 :: b2 :: b3 :: b4 :: b5 :: b6 :: b7 :: rest =>
     match decRef (leVal [b0, b1, b2, b3, b4, b5, b6, b7]) with
     | none => .error .corruptFile     -- buffer_id = 0xFFFFFFFF >= num_buffers
     | some r =>
-      if relocRejected a r then .error .corruptFile
+      if relocRejected cfg a r then .error .corruptFile
       else if ¬ InB a r then .error .outOfBounds       -- `used - 8` wrapped: memcpy beyond the used bytes
+      else if cfg.validatesRefs && refRefused cfg a (decRef (getSlot a r)) then .error .corruptFile
       else
         match refToPtr a.bufs (decRef (getSlot a r)) with
         | .error e => .error e
-        | .ok p => applyRelocs { setSlot a r p with relocs := a.relocs ++ [r] } rest
-  | _ => .ok a
+        | .ok p => applyRelocs cfg { setSlot a r p with relocs := a.relocs ++ [r] } rest
+  | [] => .ok a
+  | _ => if cfg.rejectsPartial then .error .corruptFile else .ok a
 
-def load (alloc : Nat → Nat) (s : Bytes) : Except Err Arena := do
+def load (cfg : LoaderCfg) (alloc : Nat → Nat) (s : Bytes) : Except Err Arena := do
   let (n, s1) ← parseHeader s
   let (sizes, s2) ← parseTable n s1
-  let (bufs, s3) ← readBodies alloc 0 sizes s2
-  applyRelocs { bufs := bufs, relocs := [], init := loadInitialSize } s3
+  if cfg.checksOffsets && !offsetsOk s1 0 (headerSize + tableEntrySize * n) sizes then .error .corruptFile
+  else
+    let (bufs, s3) ← readBodies alloc 0 sizes s2
+    applyRelocs cfg { bufs := bufs, relocs := [], init := loadInitialSize } s3
 
 /-- yr_rules_load_stream = arena load + yr_rules_from_arena's test that the summary buffer exists
     (`yr_arena_get_ptr` asserts `buffer_id < num_buffers`) -/
 def summarySection : Nat := 11
 
-def loadRules (alloc : Nat → Nat) (s : Bytes) : Except Err Arena := do
-  let a ← load alloc s
+def loadRules (cfg : LoaderCfg) (alloc : Nat → Nat) (s : Bytes) : Except Err Arena := do
+  let a ← load cfg alloc s
   if a.bufs.length ≤ summarySection then .error .assertFail
   else if (a.bufAt summarySection).base = 0 then .error .corruptFile
   else pure a
@@ -365,7 +397,7 @@ def readChunks : Nat → List Bytes → Bytes × List Bytes
 
 /-- loading through a chunked stream: every `yr_stream_read(ptr, size, count)` request of the loader is
     served by `readChunks (size*count)`; the loader sees the number of complete items -/
-def loadVia (alloc : Nat → Nat) (cs : List Bytes) : Except Err Arena :=
+def loadVia (cfg : LoaderCfg) (alloc : Nat → Nat) (cs : List Bytes) : Except Err Arena :=
   let (hdr, cs1) := readChunks headerSize cs
   match parseHeader hdr with
   | .error e => .error e
@@ -374,6 +406,7 @@ def loadVia (alloc : Nat → Nat) (cs : List Bytes) : Except Err Arena :=
     match parseTable n tbl with
     | .error e => .error e
     | .ok (sizes, _) =>
+      if cfg.checksOffsets && !offsetsOk tbl 0 (headerSize + tableEntrySize * n) sizes then .error .corruptFile else
       let rec bodiesVia (i : Nat) (sizes : List Nat) (cs : List Bytes) : Except Err (List Buf × List Bytes) :=
         match sizes with
         | [] => .ok ([], cs)
@@ -399,9 +432,9 @@ def loadVia (alloc : Nat → Nat) (cs : List Bytes) : Except Err Arena :=
           | 0 => .ok a
           | fuel + 1 =>
             let (e, cs') := readChunks relocEntrySize cs
-            if e.length < relocEntrySize then .ok a
+            if e.length < relocEntrySize then applyRelocs cfg a e
             else
-              match applyRelocs a e with
+              match applyRelocs cfg a e with
               | .error err => .error err
               | .ok a' => relocsVia fuel a' cs'
         relocsVia ((cs3.map (·.length)).sum / relocEntrySize + 1) { bufs := bufs, relocs := [], init := loadInitialSize } cs3
